@@ -131,3 +131,91 @@ Check (eq_refl : wform = fun E s items bases su sq mn mx =>
   fin_ge (E + E) (su_sumsq s) /\ fval (E + E) (su_sumsq s) = sq /\
   fin_ge E (su_min s) /\ fval E (su_min s) = mn /\ fin_ge E (su_max s) /\ fval E (su_max s) = mx)%Z.
 End PinC06.
+
+(* ---- IEEE = exact on a checkable domain (appended; Proofs/FloatExact.v) ---- *)
+From BT Require Proofs.FloatExact.
+Module PinC06Float.
+Import Model.RTree Model.BBIFile Model.BigWigWrite Proofs.BwSummary Proofs.BwCollect Proofs.C06FileFloat Proofs.FloatExact Properties.C06.
+Local Open Scope Z_scope.
+Check (C06_fadd_ieee_exact : forall x y, rep64 (fadd64 exact x y) -> same_num (fadd64 ieee x y) (fadd64 exact x y)).
+Check (C06_fmul_ieee_exact : forall x y, rep64 (fmul64 exact x y) -> same_num (fmul64 ieee x y) (fmul64 exact x y)).
+Check (C06_to_f32_ieee_exact : forall x, rep32 x -> same_num (to_f32 ieee x) x /\ to_f32 exact x = x).
+Check (C06_grid_fadd_ieee : forall E G B1 B2 x y, E <= 0 -> E <= G -> -1074 <= G <= 971 -> B1 + B2 < FloatExact.P53 ->
+  grid E G B1 x -> grid E G B2 y ->
+  grid E G (B1 + B2) (fadd64 ieee x y) /\ grid E G (B1 + B2) (fadd64 exact x y) /\
+  same_num (fadd64 ieee x y) (fadd64 exact x y)).
+Check (C06_grid_fmul_ieee : forall E1 G1 E2 G2 B1 B2 x y,
+  E1 <= G1 -> E2 <= G2 -> E1 + E2 <= 0 -> -1074 <= G1 + G2 <= 971 -> 0 <= B1 -> B1 * B2 < FloatExact.P53 ->
+  grid E1 G1 B1 x -> grid E2 G2 B2 y ->
+  grid (E1 + E2) (G1 + G2) (B1 * B2) (fmul64 ieee x y) /\ grid (E1 + E2) (G1 + G2) (B1 * B2) (fmul64 exact x y) /\
+  same_num (fmul64 ieee x y) (fmul64 exact x y)).
+Check (C06_fold_sum_ieee_exact : forall (T : Type) (len : T -> N) (val : T -> fl) E G l, grid_ok_sum E G ->
+  Forall (fun t => on_grid E G (val t)) l -> kabs len (fun t => gk E G (val t)) l < FloatExact.P53 ->
+  let k := ksum len (fun t => gk E G (val t)) l in
+  gval E G (fold_left (step_sum len val ieee) l fzero) k /\ gval E G (fold_left (step_sum len val exact) l fzero) k /\
+  same_num (fold_left (step_sum len val ieee) l fzero) (fold_left (step_sum len val exact) l fzero)).
+Check (C06_fold_sq_ieee_exact : forall (T : Type) (len : T -> N) (val : T -> fl) E G l, grid_ok E G ->
+  Forall (fun t => on_grid E G (val t)) l -> ksq len (fun t => gk E G (val t)) l < FloatExact.P53 ->
+  let k := ksq len (fun t => gk E G (val t)) l in
+  gval (E + E) (G + G) (fold_left (step_sq len val ieee) l fzero) k /\
+  gval (E + E) (G + G) (fold_left (step_sq len val exact) l fzero) k /\
+  same_num (fold_left (step_sq len val ieee) l fzero) (fold_left (step_sq len val exact) l fzero)).
+Check (C06_in_exact_domain_hyps : forall vs, in_exact_domain vs = true ->
+  grid_ok dom_E dom_G /\ Forall (vgrid dom_E dom_G) vs /\ gabs dom_E dom_G vs < FloatExact.P53 /\ gsq dom_E dom_G vs < FloatExact.P53).
+Check (C06_bw_summary_ieee_exact_on_grid : forall E G o sizes input ids outs sum data, grid_ok E G ->
+  let all := map snd input in
+  Forall (vgrid E G) all -> gabs E G all < FloatExact.P53 -> gsq E G all < FloatExact.P53 ->
+  bw_collect ieee o sizes input = Ok (ids, outs, sum, data) ->
+  wform E sum (Nlen all) (w_bases all) (w_sum E all) (w_sumsq E all)
+        (w_min E all (fval E f64_max)) (w_max E all (fval E f64_min)) /\
+  exists sum_e, bw_collect exact o sizes input = Ok (ids, outs, sum_e, data) /\
+    su_items sum = su_items sum_e /\ su_bases sum = su_bases sum_e /\ su_min sum = su_min sum_e /\ su_max sum = su_max sum_e /\
+    same_num (su_sum sum) (su_sum sum_e) /\ same_num (su_sumsq sum) (su_sumsq sum_e)).
+Check (C06_bw_summary_ieee_in_domain : forall o sizes input ids outs sum data,
+  let all := map snd input in
+  in_exact_domain all = true ->
+  bw_collect ieee o sizes input = Ok (ids, outs, sum, data) ->
+  wform dom_E sum (Nlen all) (w_bases all) (w_sum dom_E all) (w_sumsq dom_E all)
+        (w_min dom_E all (fval dom_E f64_max)) (w_max dom_E all (fval dom_E f64_min)) /\
+  exists sum_e, bw_collect exact o sizes input = Ok (ids, outs, sum_e, data) /\
+    su_items sum = su_items sum_e /\ su_bases sum = su_bases sum_e /\ su_min sum = su_min sum_e /\ su_max sum = su_max sum_e /\
+    same_num (su_sum sum) (su_sum sum_e) /\ same_num (su_sumsq sum) (su_sumsq sum_e)).
+(* the definitions the statements are made of *)
+Check (eq_refl : FloatExact.P53 = 2 ^ 53).
+Check (eq_refl : canonP = fun prec emin emax m e => Z.abs m < 2 ^ prec /\ emin <= e /\ e + bitlen m <= emax).
+Check (eq_refl : repP = fun prec emin emax x =>
+  match x with
+  | FFin m e => exists m' e', canonP prec emin emax m' e' /\ same_num (FFin m e) (FFin m' e')
+  | _ => True
+  end).
+Check (eq_refl : rep32 = repP 24 (-149) 128).
+Check (eq_refl : fval = fun E a => match a with FFin m e => m * 2 ^ (e - E) | _ => 0 end).
+Check (eq_refl : fin_ge = fun E a => match a with FFin _ e => E <= e | _ => False end).
+Check (eq_refl : gval = fun E G x k => fin_ge E x /\ fval E x = k * 2 ^ (G - E)).
+Check (eq_refl : on_grid = fun E G x => fin_ge E x /\ fval E x mod 2 ^ (G - E) = 0).
+Check (eq_refl : gk = fun E G x => fval E x / 2 ^ (G - E)).
+Check (eq_refl : grid = fun E G B x => on_grid E G x /\ Z.abs (gk E G x) <= B).
+Check (eq_refl : grid_ok_sum = fun E G => E <= 0 /\ E <= G /\ -1074 <= G <= 971).
+Check (eq_refl : grid_ok = fun E G => E <= 0 /\ E <= G /\ -537 <= G <= 485).
+Check (eq_refl : @step_sum = fun T len val fp a t => fadd64 fp a (fmul64 fp (f_of_N (len t)) (val t))).
+Check (eq_refl : @step_sq = fun T len val fp a t => fadd64 fp a (fmul64 fp (fmul64 fp (f_of_N (len t)) (val t)) (val t))).
+Check (eq_refl : @ksum = fun T len kv l => zsum (map (fun t => Z.of_N (len t) * kv t) l)).
+Check (eq_refl : @kabs = fun T len kv l => zsum (map (fun t => Z.of_N (len t) * Z.abs (kv t)) l)).
+Check (eq_refl : @ksq = fun T len kv l => zsum (map (fun t => Z.of_N (len t) * kv t * kv t) l)).
+Check (eq_refl : zsum = fun l => fold_right Z.add 0 l).
+Check (eq_refl : vlenN = fun v => (v_end v - v_start v)%N).
+Check (eq_refl : vgrid = fun E G v => on_grid E G (v_val v)).
+Check (eq_refl : vk = fun E G v => gk E G (v_val v)).
+Check (eq_refl : gsum = fun E G vs => ksum vlenN (vk E G) vs).
+Check (eq_refl : gabs = fun E G vs => kabs vlenN (vk E G) vs).
+Check (eq_refl : gsq = fun E G vs => ksq vlenN (vk E G) vs).
+Check (eq_refl : dom_E = -149).
+Check (eq_refl : dom_G = -3).
+Check (eq_refl : val_in_domain = fun x =>
+  match x with
+  | FFin m e => (dom_E <=? e) && (fval dom_E x mod 2 ^ (dom_G - dom_E) =? 0) && (Z.abs (fval dom_E x) <=? 8192 * 2 ^ (dom_G - dom_E))
+  | _ => false
+  end).
+Check (eq_refl : in_exact_domain = fun vs =>
+  forallb (fun v => val_in_domain (v_val v)) vs && (Z.of_N (sumN (map vlenN vs)) <? 2 ^ 24)).
+End PinC06Float.
